@@ -4,6 +4,9 @@ package sched
 
 import (
 	"fmt"
+	apiequality "k8s.io/apimachinery/pkg/api/equality"
+	metav1 "k8s.io/apimachinery/pkg/apis/meta/v1"
+	"k8s.io/apimachinery/pkg/runtime/schema"
 	"math/rand/v2"
 	"net/http"
 	"os"
@@ -280,7 +283,9 @@ type CycleResult struct {
 	Panic    string        `json:"panic,omitempty"`
 	OpenErr  string        `json:"openErr,omitempty"`
 	Dur      time.Duration `json:"dur"`
-	NotQuiet bool          `json:"notQuiet,omitempty"`
+	NotQuiet bool
+	// NotSynced: persistent mode only - the cache's listers did not reach the store content within 5 s
+	NotSynced bool `json:"notQuiet,omitempty"`
 }
 
 // Hooks lets callers observe a cycle from inside.
@@ -304,6 +309,100 @@ type Runner struct {
 	Rng    *rand.Rand
 	Hooks  Hooks
 	cycle  int
+	// Persistent keeps ONE scheduler cache (informers, status updater, any cross-cycle in-memory state) for all
+	// cycles of the case, as the real scheduler process does, instead of a fresh cache per cycle. Before every
+	// cycle the runner waits until the cache's listers show exactly the store content (no informer lag is
+	// modelled); if they do not within 5 s the cycle result carries NotSynced. Call Close when done.
+	Persistent bool
+	pcache     cache.Cache
+	pstop      chan struct{}
+}
+
+// Close stops a persistent cache.
+func (r *Runner) Close() {
+	if r.pstop != nil {
+		close(r.pstop)
+		r.pstop, r.pcache = nil, nil
+	}
+}
+
+func metaKey(o metav1.Object) string { return o.GetNamespace() + "/" + o.GetName() }
+
+// listersInSync compares what the cache's listers return with the store.
+func (r *Runner) listersInSync(c cache.Cache) bool {
+	o := r.St.ReadAll()
+	dl := c.GetDataLister()
+	type obj interface {
+		metav1.Object
+		runtime.Object
+	}
+	same := func(a, b obj) bool {
+		x, y := a.DeepCopyObject().(obj), b.DeepCopyObject().(obj)
+		x.GetObjectKind().SetGroupVersionKind(schema.GroupVersionKind{})
+		y.GetObjectKind().SetGroupVersionKind(schema.GroupVersionKind{})
+		x.SetResourceVersion("")
+		y.SetResourceVersion("")
+		return apiequality.Semantic.DeepEqual(x, y)
+	}
+	pods, err := dl.ListPods()
+	if err != nil || len(pods) != len(o.Pods) {
+		return false
+	}
+	sp := map[string]*v1.Pod{}
+	for _, p := range o.Pods {
+		sp[metaKey(p)] = p
+	}
+	for _, p := range pods {
+		if q, ok := sp[metaKey(p)]; !ok || !same(p, q) {
+			return false
+		}
+	}
+	brs, err := dl.ListBindRequests()
+	if err != nil {
+		return false
+	}
+	sb := map[string]obj{}
+	for _, b := range o.BindRequests {
+		sb[metaKey(b)] = b
+	}
+	for _, b := range brs {
+		if q, ok := sb[metaKey(b)]; !ok || !same(b, q) {
+			return false
+		}
+	}
+	nodes, err := dl.ListNodes()
+	if err != nil {
+		return false
+	}
+	sn := map[string]obj{}
+	for _, n := range o.Nodes {
+		sn[metaKey(n)] = n
+	}
+	for _, n := range nodes {
+		if q, ok := sn[metaKey(n)]; !ok || !same(n, q) {
+			return false
+		}
+	}
+	pgs, err := dl.ListPodGroups()
+	if err != nil {
+		return false
+	}
+	sg := map[string]obj{}
+	for _, g := range o.PodGroups {
+		sg[metaKey(g)] = g
+	}
+	for _, g := range pgs {
+		if q, ok := sg[metaKey(g)]; !ok || !same(g, q) {
+			return false
+		}
+	}
+	// every BindRequest of the store must be visible unless the node-pool selector hides it
+	if r.Params.PartitionParams == nil || r.Params.PartitionParams.NodePoolLabelKey == "" {
+		if len(brs) != len(o.BindRequests) || len(nodes) != len(o.Nodes) || len(pgs) != len(o.PodGroups) {
+			return false
+		}
+	}
+	return true
 }
 
 func NewRunner(st *store.Store, c *spec.Case, rng *rand.Rand, hooks Hooks) (*Runner, error) {
@@ -366,10 +465,29 @@ func (r *Runner) Cycle() (res *CycleResult) {
 		NumOfStatusRecordingWorkers: r.Params.NumOfStatusRecordingWorkers,
 		DiscoveryClient:             r.St.Kube.Discovery(),
 	}
-	real := cache.New(params)
-	stop := make(chan struct{})
-	real.Run(stop)
-	real.WaitForCacheSync(stop)
+	var real cache.Cache
+	var stop chan struct{}
+	if r.Persistent && r.pcache != nil {
+		real, stop = r.pcache, r.pstop
+	} else {
+		real = cache.New(params)
+		stop = make(chan struct{})
+		real.Run(stop)
+		real.WaitForCacheSync(stop)
+		if r.Persistent {
+			r.pcache, r.pstop = real, stop
+		}
+	}
+	if r.Persistent {
+		deadline := time.Now().Add(5 * time.Second)
+		for !r.listersInSync(real) {
+			if time.Now().After(deadline) {
+				res.NotSynced = true
+				break
+			}
+			time.Sleep(2 * time.Millisecond)
+		}
+	}
 	rc := &RecCache{Cache: real, Cycle: r.cycle, rng: r.Rng, faults: r.Faults, OnEvent: r.Hooks.OnEvent}
 	curRC = rc
 	defer func() { curRC = nil }()
@@ -414,7 +532,9 @@ func (r *Runner) Cycle() (res *CycleResult) {
 	if !r.St.WaitQuiescent(15*time.Millisecond, 3*time.Second) {
 		res.NotQuiet = true
 	}
-	close(stop)
+	if !r.Persistent {
+		close(stop)
+	}
 	rc.mu.Lock()
 	res.Events = append([]Event(nil), rc.Events...)
 	rc.mu.Unlock()
